@@ -293,5 +293,20 @@ func init() {
 			return nil
 		})
 		w.reg(V+"Yield", func(e *Exec, fn *ssa.Function, a []Value) Value { e.yield("verif.Yield"); return nil })
+		// Await(cond func() bool): block the calling thread until cond() holds
+		w.reg(V+"Await", func(e *Exec, fn *ssa.Function, a []Value) Value {
+			f, ok := a[0].(*FuncV)
+			if !ok || f == nil {
+				e.abort("harness-error", "verif.Await: nil func")
+			}
+			e.waitUntil(func() bool {
+				r, ok := e.callFunc(f, nil, "await").(*Term)
+				if !ok || !r.Const {
+					e.ooe("verif.Await: condition is not concrete")
+				}
+				return r.IsTrue()
+			}, "verif.Await")
+			return nil
+		})
 	})
 }
